@@ -863,11 +863,21 @@ theorem repackV_has (v : Variant) (view : List Pack) (s : Store) (now : Nat) (x 
       · exact .inr (.inr h)
       · exact .inl h
 
-/-- 7. one maintenance operation from a handle with ANY view of the packs (stale entries, missing entries, any order)
-never loses a reachable object — whether it returns or raises -/
+theorem has_withStale {s : Store} {extra : List Id} {x : Id} (h : s.has x = true) : (s.withStale extra).has x = true := by
+  rw [has_iff] at h
+  unfold Store.withStale
+  rw [has_mk]
+  rcases h with h | h | h
+  · exact .inl h
+  · exact .inr (.inl h)
+  · exact .inr (.inr (List.mem_append_left _ h))
+
+/-- 7. one maintenance operation from a handle with ANY view of the packs (stale entries, missing entries, any order;
+any set of vanished-but-still-mapped objects readable by the walk) never loses a reachable object — whether it returns
+or raises -/
 theorem applyV_preserves_reachable {v : Variant} {G : Id → List Id} {roots : List Id} {fuel : Nat} {view : List Pack}
-    {op : Op} {s : Store} {r : Store × Bool} (h : applyV v G roots fuel view op s = some r) {x : Id}
-    (hr : Reach s G roots x) (hx : s.has x = true) : r.1.has x = true := by
+    {extra : List Id} {op : Op} {s : Store} {r : Store × Bool} (h : applyV v G roots fuel view extra op s = some r)
+    {x : Id} (hr : Reach s G roots x) (hx : s.has x = true) : r.1.has x = true := by
   cases op with
   | packLoose now =>
     simp only [applyV, Option.some.injEq] at h
@@ -879,8 +889,15 @@ theorem applyV_preserves_reachable {v : Variant} {G : Id → List Id} {roots : L
     exact (repackV_has v view s now x).mpr hx
   | prune grace now =>
     simp only [applyV, Option.map_eq_some_iff] at h
-    obtain ⟨s', hs', rfl⟩ := h
-    exact apply_preserves_reachable hs' hr hx
+    obtain ⟨rch, hr', rfl⟩ := h
+    have hr2 : Reach (s.withStale extra) G roots x := reach_mono (fun y _ hy => has_withStale hy) hr
+    have hxr : x ∈ rch := (findReachable_iff hr' x).mpr hr2
+    simp only
+    rw [pruneLoose_has]
+    rcases (has_iff s x).mp hx with h | h | h
+    · exact .inl h
+    · exact .inr (.inl ⟨h, .inl hxr⟩)
+    · exact .inr (.inr h)
   | gc prune grace now =>
     simp only [applyV, Option.map_eq_some_iff] at h
     obtain ⟨s', hs', rfl⟩ := h
@@ -891,7 +908,7 @@ theorem applyV_preserves_reachable {v : Variant} {G : Id → List Id} {roots : L
     exact apply_preserves_reachable hs' hr hx
 
 theorem applyAllV_preserves_reachable {v : Variant} {G : Id → List Id} {roots : List Id} {fuel : Nat}
-    {ops : List (List Pack × Op)} {s s' : Store} (h : applyAllV v G roots fuel ops s = some s') {x : Id}
+    {ops : List (List Pack × List Id × Op)} {s s' : Store} (h : applyAllV v G roots fuel ops s = some s') {x : Id}
     (hr : Reach s G roots x) (hx : s.has x = true) : s'.has x = true := by
   induction ops generalizing s with
   | nil =>
@@ -899,7 +916,7 @@ theorem applyAllV_preserves_reachable {v : Variant} {G : Id → List Id} {roots 
     subst h
     exact hx
   | cons vo ops ih =>
-    obtain ⟨view, op⟩ := vo
+    obtain ⟨view, extra, op⟩ := vo
     simp only [applyAllV, Option.bind_eq_some_iff] at h
     obtain ⟨r, h1, h2⟩ := h
     exact ih h2 (reach_mono (fun y hy hhy => applyV_preserves_reachable h1 hy hhy) hr)
